@@ -37,8 +37,12 @@ fn key(k: usize) -> Key {
         hash: MerkleHash::from([0x1111_1111_1111_1111u64 * (k as u64 + 1), 7 + k as u64, 0xABCD, 0x42 + 1000 * k as u64]),
     }
 }
+/// Chunks 0..EQ have pairwise different lengths (so that a range is recognisable by its layout); chunks EQ.. all
+/// have the same length, so that two different ranges of a key have byte-identical headers and total lengths and
+/// differ in their data only - the case in which nothing but the data itself can tell a mixed-up item from a good one.
+const EQ: usize = 8;
 fn chunk_bytes(k: usize, c: usize) -> Vec<u8> {
-    let len = 2 + c + 3 * k;
+    let len = if c >= EQ { 4 } else { 2 + c + 3 * k };
     (0..len).map(|i| (k * 64 + c * 16 + i) as u8).collect()
 }
 fn range_data(k: usize, i: usize, j: usize) -> (Vec<u32>, Vec<u8>) {
@@ -583,6 +587,8 @@ fn harnesses(tier: Tier) -> Vec<Harness> {
         h("get||identical put over an item damaged while closed", 0, vec![Put(0, 0, 3), DamageAndReopen(0, 0, 3)], vec![vec![Get(0, 0, 3)], vec![Put(0, 0, 3)]]),
         h("put,put||put identical then nested", 0, vec![], vec![vec![Put(0, 0, 2), Put(0, 0, 3)], vec![Put(0, 0, 2)]]),
         h("put evicting two keys||put into one of their directories", 3, vec![Put(0, 0, 1), Put(1, 0, 1)], vec![vec![Put(1, 1, 3)], vec![Put(0, 1, 2)]]),
+        h("put,get||put,get disjoint ranges of equal layout", 0, vec![], vec![vec![Put(0, EQ, EQ + 1), Get(0, EQ, EQ + 1)], vec![Put(0, EQ + 1, EQ + 2), Get(0, EQ + 1, EQ + 2)]]),
+        h("put,get||put,get overlapping ranges of equal layout", 0, vec![], vec![vec![Put(0, EQ, EQ + 2), Get(0, EQ, EQ + 2)], vec![Put(0, EQ + 1, EQ + 3), Get(0, EQ + 1, EQ + 3)]]),
     ];
     if tier == Tier::Thorough {
         v.extend(vec![
@@ -598,6 +604,8 @@ fn harnesses(tier: Tier) -> Vec<Harness> {
             h("evicting put||evicting put (cap 1)", 2, vec![Put(0, 0, 1)], vec![vec![Put(1, 0, 2)], vec![Put(1, 1, 3)]]),
             h("get||get||subsuming put", 0, vec![Put(0, 1, 2)], vec![vec![Get(0, 1, 2)], vec![Get(0, 1, 2)], vec![Put(0, 0, 3)]]),
             h("get||get||get of an item damaged while closed", 0, vec![Put(0, 0, 3), DamageAndReopen(0, 0, 3)], vec![vec![Get(0, 0, 3)], vec![Get(0, 2, 3)], vec![Get(0, 1, 3)]]),
+            h("put,get||put,get one range of two keys, equal layout", 0, vec![], vec![vec![Put(0, EQ, EQ + 1), Get(0, EQ, EQ + 1)], vec![Put(1, EQ, EQ + 1), Get(1, EQ, EQ + 1)]]),
+            h("put||put||get,get disjoint ranges of equal layout", 0, vec![], vec![vec![Put(0, EQ, EQ + 1)], vec![Put(0, EQ + 1, EQ + 2)], vec![Get(0, EQ, EQ + 1), Get(0, EQ + 1, EQ + 2)]]),
             h("get||get of a damaged item with an intact fallback", 0, vec![Put(0, 2, 3), Put(0, 0, 2), Put(0, 1, 3), DamageAndReopen(0, 1, 3)], vec![vec![Get(0, 2, 3)], vec![Get(0, 2, 3)]]),
         ]);
     }
